@@ -83,7 +83,7 @@ def write_types_file(ctx, tr_ok):
     for name, val in consts:
         lines.append('c %s %s' % (val.lower(), name))
     os.makedirs(lib.VERIF + '/evidence', exist_ok=True)
-    out = lib.VERIF + '/evidence/.corpus-C14-types.txt'
+    out = os.environ.get('TMPDIR', '/var/tmp') + '/.corpus-C14-types.txt'
     open(out, 'w').write('\n'.join(lines) + '\n')
     ctx.extra['accept_types_source'] = origin
     ctx.extra['accept_types'] = {'emitted': len(seen), 'constants': len(consts)}
